@@ -325,7 +325,8 @@ struct Words {
     random: u64,
 }
 
-const WORD_CHARS: [char; 40] = [
+const WORD_CHARS: [char; 52] = [
+    '\u{200b}', '\u{200c}', '\u{200d}', '\u{2060}', '\u{feff}', '\u{180e}', '\u{ad}', '”', '“', '＋', '＝', '．',
     'a', 'b', 'z', 'A', 'Z', '_', '.', ':', '#', '@', '$', '\'', '?', '~', '[', ']', '{', '}', '0', '1', '9', 'e', 'E',
     'x', 'X', 'ä', 'ß', '日', 'λ', 'é', '\u{301}', '😀', 'i', 'n', 'f', 't', 'r', 'u', '`', '\\',
 ];
@@ -423,6 +424,10 @@ pub fn phases(cfg: &Cfg) -> Vec<Box<dyn Phase>> {
     for c in ['\u{d7ff}', '\u{e000}', '\u{fffd}', '\u{ffff}', '\u{10000}', '\u{10ffff}', '\u{200b}', '\u{feff}', '\u{2028}', '\u{2029}', '\u{85}'] {
         singles.push(c);
     }
+    // everything that looks like a quote, a backslash, a slash or a star in some script; zero-width and format characters
+    for c in "“”‘’‚‛„‟«»‹›＂＇｀´ʺ˝ˮ״′″‴〃〝〞〟＼⧵∖／⁄∕＊∗⁎\u{200c}\u{200d}\u{2060}\u{180e}\u{ad}\u{61c}\u{200e}\u{200f}\u{202a}\u{202e}\u{fe0f}\u{e0001}".chars() {
+        singles.push(c);
+    }
     let mut ints: Vec<i64> = vec![0, 1, 9, 10, 15, 16, 255, 256];
     for k in 1..63 {
         let p = 1i64 << k;
@@ -436,12 +441,16 @@ pub fn phases(cfg: &Cfg) -> Vec<Box<dyn Phase>> {
     }
     let mut floats: Vec<f64> = gen::float_pool().into_iter().filter(|f| f.is_finite() && !f.is_sign_negative()).collect();
     floats.extend([0.005, 0.002, 100.0, 1e5, 1e-5, 1e19, 1e20, 1e21, 1e22, 1e23, 123456789.125, 0.3, 2.2250738585072011e-308, 1.7976931348623157e308, 4.9406564584124654e-324, 9007199254740993.0]);
-    let escape_chars: Vec<char> = (0x20u32..0x7f).filter_map(char::from_u32).chain(['\n', '\t', '\0', 'ä', '😀', '\u{2028}']).collect();
+    let escape_chars: Vec<char> = (0x20u32..0x7f)
+        .filter_map(char::from_u32)
+        .chain(['\n', '\t', '\0', 'ä', '😀', '\u{2028}', '”', '“', '’', '＂', '＼', '\u{200b}', '\r'])
+        .collect();
     let words: Vec<String> = [
         "inf", "Inf", "INF", "infinity", "Infinity", "INFINITY", "nan", "NaN", "NAN", "nAn", "1e", "1E", "1.5e", "0x", "0xg", "0X10", "0b1",
         "1.2.3", "truex", "True", "TRUE", "False", "e5", "E5", "_1", "1_000", "1e5x", "x1e5", ".e5", "1e1.5", "1f", "0x1.8", "५", "١٢٣",
         "a.b", "a::b", "math::pi", "$x", "@y", "x'", "q?", "~z", "[a]", "{b}", "#c", "été", "日本語", "λ", "tru", "fals", "nul", "i64", "1st",
-        "0e", "00x1", "x0x", "e", "E", "e+", ".", "..", "._", "1..2",
+        "0e", "00x1", "x0x", "e", "E", "e+", ".", "..", "._", "1..2", "a\u{200b}b", "\u{200b}", "x\u{feff}", "a\u{ad}b", "a\u{2060}b", "“a”", "１２", "1\u{200b}2",
+        "ī", "н", "нx", "ȫ", "ш", "a١",
     ]
     .iter()
     .map(|s| s.to_string())
